@@ -185,6 +185,9 @@ pub struct CompactSpec {
     pub num_threads: Option<usize>,
     /// None: compact_files; Some(seed): plan / execute tasks / commit random subsets in random order
     pub distributed: Option<u64>,
+    /// distributed mode only: another handle deletes these rows (id predicate) after the tasks were
+    /// executed and before their results are committed from the now stale handle
+    pub interleaved_delete: Option<Pred>,
 }
 
 impl CompactSpec {
@@ -209,7 +212,11 @@ impl CompactSpec {
             self.batch_size,
             self.defer_index_remap,
             self.max_bytes_per_file,
-            if self.distributed.is_some() { "distributed" } else { "compact_files" }
+            match (&self.distributed, &self.interleaved_delete) {
+                (Some(_), Some(p)) => format!("distributed, concurrent delete where {}", short(&p.sql())),
+                (Some(_), None) => "distributed".to_string(),
+                _ => "compact_files".to_string(),
+            }
         )
     }
 }
@@ -478,6 +485,9 @@ pub struct HistCfg {
     /// fragment reuse index that makes every later `load_indices` panic (C13 finding); only C13
     /// keeps generating that combination.
     pub allow_defer_remap: bool,
+    /// distributed compactions may be interleaved with a concurrent delete (C13 only: leftover
+    /// tasks committed afterwards resurrect the deleted rows — C13 known finding)
+    pub allow_interleaved_delete: bool,
 }
 
 impl HistCfg {
@@ -486,6 +496,7 @@ impl HistCfg {
         Self {
             stable,
             allow_defer_remap: true,
+            allow_interleaved_delete: false,
             version: *rng.pick_weighted(&[
                 (3, LanceFileVersion::V2_0),
                 (3, LanceFileVersion::V2_1),
@@ -498,6 +509,9 @@ impl HistCfg {
         }
     }
 }
+
+/// column types / storage versions / row id modes of all history tables of this process (evidence)
+pub static TABLE_SHAPES: crate::util::Histo = crate::util::Histo::new();
 
 pub struct Hist {
     pub world: Arc<World>,
@@ -513,6 +527,9 @@ pub struct Hist {
     pub log: Vec<String>,
     pub indexed: Option<(String, IdxKind)>,
     pub deleted_ids: Vec<i64>,
+    /// the last distributed compaction committed leftover tasks in a second `commit_compaction`
+    /// call and that call was accepted
+    pub second_commit_round_accepted: bool,
 }
 
 /// Extra column pool for history tables: everything the ColTy pool has. Lists with null items are
@@ -603,6 +620,11 @@ impl Hist {
                 },
             );
         }
+        for c in &spec.cols {
+            TABLE_SHAPES.add(&format!("column:{:?}", c.ty), 1);
+        }
+        TABLE_SHAPES.add(&format!("storage:{:?}", cfg.version), 1);
+        TABLE_SHAPES.add(if cfg.stable { "row-ids:stable" } else { "row-ids:address" }, 1);
         let log = vec![format!(
             "v{v}: create rows={} rows/file={} stable={} version={:?} cols={}",
             cfg.initial_rows,
@@ -628,6 +650,7 @@ impl Hist {
             log,
             indexed: None,
             deleted_ids: vec![],
+            second_commit_round_accepted: false,
         })
     }
 
@@ -707,6 +730,28 @@ impl Hist {
 
     pub fn gen_compact(&self, rng: &mut Rng, allow_distributed: bool) -> CompactSpec {
         let n = self.model.rows.len().max(1);
+        let distributed = if allow_distributed && rng.chance(1, 3) { Some(rng.next_u64()) } else { None };
+        let interleaved_delete = if distributed.is_some() && self.cfg.allow_interleaved_delete && rng.chance(1, 3) {
+            let ids = self.model.ids();
+            if ids.is_empty() {
+                None
+            } else {
+                Some(match rng.below(3) {
+                    0 => Pred::IdIn((0..rng.urange(1, 4)).map(|_| *rng.pick(&ids)).collect()),
+                    1 => {
+                        let a = rng.usize_below(ids.len());
+                        let b = (a + rng.urange(1, 5)).min(ids.len() - 1);
+                        Pred::IdRange(ids[a], ids[b].max(ids[a] + 1))
+                    }
+                    _ => {
+                        let m = rng.range(3, 7);
+                        Pred::IdMod(m, rng.range(0, m - 1))
+                    }
+                })
+            }
+        } else {
+            None
+        };
         CompactSpec {
             target_rows: *rng.pick(&[2usize, 5, 10, 25, n, 2 * n, 1 << 20]),
             max_rows_per_group: *rng.pick(&[2usize, 16, 1024]),
@@ -716,11 +761,8 @@ impl Hist {
             batch_size: *rng.pick(&[None, Some(1usize), Some(3), Some(64)]),
             defer_index_remap: rng.chance(1, 3) && self.cfg.allow_defer_remap,
             num_threads: *rng.pick(&[None, Some(1usize), Some(4)]),
-            distributed: if allow_distributed && rng.chance(1, 3) {
-                Some(rng.next_u64())
-            } else {
-                None
-            },
+            distributed,
+            interleaved_delete,
         }
     }
 
@@ -965,6 +1007,18 @@ impl Hist {
     }
 
     async fn run_compaction(&mut self, c: &CompactSpec) -> Result<(), Fail> {
+        self.second_commit_round_accepted = false;
+        let r = self.run_compaction_inner(c).await;
+        if c.interleaved_delete.is_some() {
+            // another handle committed in between: continue from the latest version
+            if let Ok(d) = self.actor.open(&self.uri).await {
+                self.ds = d;
+            }
+        }
+        r
+    }
+
+    async fn run_compaction_inner(&mut self, c: &CompactSpec) -> Result<(), Fail> {
         let opts = c.options();
         match c.distributed {
             None => {
@@ -996,6 +1050,24 @@ impl Hist {
                     results.push(r);
                 }
                 rng.shuffle(&mut results);
+                if let Some(p) = &c.interleaved_delete {
+                    // a second handle deletes rows while the rewritten files wait to be committed
+                    let sql = p.sql();
+                    let mut d2 = guard(self.actor.open(&self.uri)).await?;
+                    match guard(async {
+                        d2.delete(&sql).await?;
+                        Ok(d2)
+                    })
+                    .await
+                    {
+                        Ok(d2) => {
+                            let v = d2.version().version;
+                            let n = self.apply_model(&Op::Delete(p.clone()), v);
+                            self.log.push(format!("   concurrent delete where {} -> v{v} [{n} rows]", short(&sql)));
+                        }
+                        Err(e) => self.log.push(format!("   concurrent delete failed: {}", short(&e.brief()))),
+                    }
+                }
                 // commit in one or two rounds
                 let split = if results.len() > 1 && rng.bool() {
                     rng.urange(1, results.len() - 1)
@@ -1025,6 +1097,7 @@ impl Hist {
                     {
                         Ok(d) => {
                             self.ds = d;
+                            self.second_commit_round_accepted = true;
                             self.log.push("   second commit_compaction round: accepted".into());
                         }
                         Err(e) => {
